@@ -59,8 +59,8 @@ impl Boudot2000RangeProof {
         let E_a_2 = com(&x_a_2, &r_a_2);
         let E_b_1 = com(&x_b_1.clone().pow(2), &r_b_1);
         let E_b_2 = com(&x_b_2, &r_b_2);
-        let proof_of_square_a = Self::proof_of_square::<H>(&x_a_1, &r_a_1, g, h, &E_a_1, l, t, rmax, s, s1, s2, n);
-        let proof_of_square_b = Self::proof_of_square::<H>(&x_b_1, &r_b_1, g, h, &E_b_1, l, t, rmax, s, s1, s2, n);
+        let proof_of_square_a = Self::proof_of_square::<H>(&x_a_1, &r_a_1, g, h, &E_a_1, l, t, &cft_bound, s, s1, s2, n);
+        let proof_of_square_b = Self::proof_of_square::<H>(&x_b_1, &r_b_1, g, h, &E_b_1, l, t, &cft_bound, s, s1, s2, n);
         let proof_large_i_a = Self::proof_large_interval_specific::<H>(&x_a_2, &r_a_2, g, h, t, l, &cft_bound, s, n, T);
         let proof_large_i_b = Self::proof_large_interval_specific::<H>(&x_b_2, &r_b_2, g, h, t, l, &cft_bound, s, n, T);
         Self {
